@@ -97,7 +97,11 @@ Step(e) ==
   CASE e.ev = "Types" -> R(<<>>, "types", [j \in 1..NB |-> NewBridge(<<>>)], {}, e.known)
     [] e.ev = "New" -> R(<<>>, "new", Upd(k, NewBridge(e.ports)), occ, known)
     [] e.ev = "Start" ->
-         R(IF StartSucceeds(B) THEN Cl(e.ok, "C17:start-failed-although-ports-free") ELSE Cl(~e.ok, "C17:start-must-raise-when-a-port-is-taken"),
+         \* start() on a bridge that is already running is outside the statement's alphabet: whether it raises (as the pinned
+         \* commit does: its own sockets hold the ports) or returns quietly is left open - nothing may change either way
+         R(IF StartSucceeds(B) THEN Cl(e.ok, "C17:start-failed-although-ports-free")
+           ELSE IF B.running /\ B.bound = PortSet(B) THEN <<>>
+           ELSE Cl(~e.ok, "C17:start-must-raise-when-a-port-is-taken"),
            "start-" \o e.how \o (IF StartSucceeds(B) THEN "" ELSE IF B.running THEN "-while-running"
                                   ELSE IF \E j \in 1..Len(B.ports) : ~ValidPort(B.ports[j]) THEN "-invalid-port" ELSE "-port-taken")
                     \o (IF k = 2 THEN "-second-bridge" ELSE ""),
